@@ -68,6 +68,26 @@ def h_pdu(ctx, cfg, var, twin=False):
 h_pdu.must_reach = ["pack == reference layout", "unpack == original", "repack identical"]
 
 
+def h_refused_then_valid(ctx, cfg, nm):
+    """a payload that does not fit (data field > 65535) is refused; the PDU then still packs to its old octets, and a valid
+    payload assigned afterwards gives exactly the PDU a fresh construction gives"""
+    b = build(ctx, "filedata", cfg, dict(ndata=2, nmeta=nm))
+    pdu, vals = b.pdu, b.extra["vals"]
+    e, _ = call(setattr, pdu, "file_data", bytes(65536))
+    ctx.holds("oversize file data refused with ValueError", isinstance(e, ValueError), exc_name(e))
+    e, raw = call(pdu.pack)
+    ctx.holds("after the refusal: still the old octets (or nothing at all)", isinstance(e, ValueError) or (e is None and raw == ctx.bytes_of(b.ref)),
+              exc_name(e))
+    d2 = ctx.octets("second", 3)
+    pdu.file_data = d2
+    want = build(LenCtx(), "filedata", cfg, dict(ndata=3, nmeta=nm)).ref     # lengths only
+    e, raw = call(pdu.pack)
+    ctx.holds("valid payload after the refusal: data-field length and packet_len of a 3-octet payload", e is None and sym_and(
+        len(raw) == len(want), pdu.packet_len == len(want), ((raw[1] << 8) | raw[2]) == len(want) - hdr_len(b.v)), exc_name(e))
+    e, u = call(FileDataPdu.unpack, raw)
+    ctx.holds("...and it decodes to that payload", e is None and sym_and(u.file_data == d2, u.offset == vals["off"], u == pdu), exc_name(e))
+
+
 def h_meta_limit(ctx, cfg, nm):
     conf, v = sym_conf(ctx, cfg[0], cfg[1], crc=cfg[2], large=cfg[3])
     meta = bytes((3 * i + 1) & 0xFF for i in range(nm))
@@ -110,6 +130,10 @@ def cases(tier):
                            bounds="File Data PDU, %s, config %s: all offsets, all data/metadata octets, all states" % (var, cname(cfg))))
     cs.append(Case("fd-twin", "filedata", h_pdu, dict(cfg=(1, 1, 1, 0), var=dict(ndata=1), twin=True), expect_violation=True,
                    bounds="reachability twin"))
+    for cfg in [(1, 1, 0, 0), (2, 4, 1, 1)]:
+        for nm in (None, 1):
+            cs.append(Case("refused-then-valid-m%s-%s" % (nm, cname(cfg)), "refused", h_refused_then_valid, dict(cfg=cfg, nm=nm),
+                           bounds="65536-octet payload refused, then every 3-octet payload; metadata %s" % nm))
     for cfg in config_matrix("quick", [(1, 1)], [(1, 1)]):
         for nm in (63, 64, 65) + ((100, 255) if tier == "thorough" else ()):
             cs.append(Case("metalimit-%d-%s" % (nm, cname(cfg)), "metalimit", h_meta_limit, dict(cfg=cfg, nm=nm),
